@@ -786,6 +786,17 @@ for _text_limit in ("maxstring", "maxother"):
             _assert_invariant(contract=invariant, instance=instance)
 """),
     ],
+    "mutants/c15_fix_constructor_kind_guard_reverted": [
+        (CHK, """            if not inspect.isfunction(value) and not isinstance(
+                value, _SLOT_WRAPPER_TYPE
+            ):
+                raise AssertionError(
+""", """            if __debug__ and not inspect.isfunction(value) and not isinstance(
+                value, _SLOT_WRAPPER_TYPE
+            ):
+                raise AssertionError(
+"""),
+    ],
     "seeded/C04_r3_async_pre_returns_at_first_failed_group": [
         (CHK, """            if not_check(check=check, contract=contract):
                 violated = contract
